@@ -2,6 +2,6 @@ SPECIFICATION Spec
 CONSTANTS
   Redact = TRUE
   MaxSteps = 7
-  StageInKeyDir = TRUE
+  StageInKeyDir = FALSE
 INVARIANTS NoLeak AclBeforeFirstKeyFile
 CHECK_DEADLOCK FALSE
